@@ -98,6 +98,21 @@ def successor_registration(ctx, esc, rule):
                     if k in ('ret', 'retv'):
                         live.add(s2)
     ctx.floor('%s sites that establish the successor IKE_SA' % rule, nest, 2)
+    # ... and while the old IKE_SA is in one of those states the successor stays attached: nothing resets `new_ike_sa` to None there (the
+    # controller would register None, and every later pass of its loops over the table fails on it)
+    have = {'REKEYED', 'DEL_AFTER_REKEY_IKE_SA_REQ_SENT'}
+    for fi in ikesa.methods.values():
+        if not isinstance(fi.node, ast.FunctionDef) or fi.name == '__init__':
+            continue
+        gg = esc.add_exception_edges(fi)
+        for n in gg.nodes:
+            if n.kind == 'stmt' and isinstance(n.ast, ast.Assign) and isinstance(n.ast.value, ast.Constant) and n.ast.value.value is None \
+                    and any(isinstance(t, ast.Attribute) and t.attr == 'new_ike_sa' and isinstance(t.value, ast.Name) and t.value.id == fi.self_name
+                            for t in n.ast.targets):
+                arriving = ts.states_at(fi, n)
+                ctx.check(not (set(arriving) & have), rule, '%s: `%s` is not reached while the IKE_SA has an established successor (%s)' % (
+                    fi.name, src(n.ast), ', '.join(sorted(have))), key=(rule, fi.qual, 'successor-dropped'), site=ctx.site(fi, n.ast),
+                    detail={'arriving states': sorted(arriving)})
 
     def successor_of(e):
         """text of X when e reads X.new_ike_sa - directly or through a local bound once to it"""
